@@ -126,7 +126,7 @@ class Event:
 
     def __repr__(self) -> str:
         if self.kind == "call":
-            return f"<call {self.callee}({', '.join(show(a) for a in self.args)}){' !' if self.raised else ''}>"
+            return f"<call {self.callee or ('<' + show(self.recv) + '>.' + str(self.attr) if self.attr else show(self.recv))}({', '.join(show(a) for a in self.args)}){' !' if self.raised else ''}>"
         if self.kind in ("assign", "store"):
             return f"<{self.kind} {self.target if self.kind == 'assign' else show(self.recv)} := {show(self.value)}>"
         return f"<{self.kind} {show(self.value) if self.value is not None else ''}>"
@@ -255,6 +255,31 @@ _CMP = {ast.Is: "is", ast.IsNot: "isnot", ast.Eq: "eq", ast.NotEq: "ne", ast.Lt:
         ast.In: "in", ast.NotIn: "notin"}
 
 
+def cmp_term(op: str, a: Term, b: Term) -> Term:
+    """comparison term in canonical operand order (symmetric operators: constant on the right, else sorted)"""
+    if op in ("eq", "ne", "is", "isnot"):
+        if a[0] == "const" and b[0] != "const":
+            a, b = b, a
+        elif a[0] != "const" and b[0] != "const" and repr(a) > repr(b):
+            a, b = b, a
+    elif op in ("gt", "ge"):
+        # a > b  ==  b < a
+        op, a, b = {"gt": "lt", "ge": "le"}[op], b, a
+    return ("cmp", op, a, b)
+
+
+def cmp_const(t: Term) -> tuple[str, Term, Any] | None:
+    """(op, X, c) for a comparison of a term X with a constant c, read from X's side (`0 <= X` -> ('ge', X, 0))"""
+    if t[0] != "cmp":
+        return None
+    op, a, b = t[1], t[2], t[3]
+    if b[0] == "const" and a[0] != "const":
+        return (op, a, b[1])
+    if a[0] == "const" and b[0] != "const" and op in ("lt", "le"):
+        return ({"lt": "gt", "le": "ge"}[op], b, a[1])
+    return None
+
+
 class Evaluator:
     """term propagation along CFG paths of one (flattened) function"""
 
@@ -325,7 +350,8 @@ class Evaluator:
                 return None
             al = self.repo.local_alias(name, p)
             if al is not None:
-                if isinstance(al, (ast.Dict, ast.Tuple, ast.List, ast.Constant, ast.Set)):
+                if isinstance(al, (ast.Dict, ast.Tuple, ast.List, ast.Constant, ast.Set)) and not (isinstance(al, ast.Constant) and al.value is None) \
+                        and not (isinstance(al, (ast.List, ast.Dict, ast.Set)) and not (getattr(al, "elts", None) or getattr(al, "keys", None))):
                     return Evaluator(self.repo, p, None).term(al, st, False)
                 return None
             p = p.parent
@@ -365,8 +391,7 @@ class Evaluator:
 
     def t_List(self, e, st, log, nid):
         if not e.elts and log:
-            st.nfresh += 1
-            return ("new", st.nfresh, "list")
+            return ("new", f"{getattr(e, 'lineno', 0)}:{getattr(e, 'col_offset', 0)}", "list")
         return ("list",) + tuple(self.term(x, st, log, nid) for x in e.elts)
 
     def t_Set(self, e, st, log, nid):
@@ -374,8 +399,7 @@ class Evaluator:
 
     def t_Dict(self, e, st, log, nid):
         if not e.keys and log:
-            st.nfresh += 1
-            return ("new", st.nfresh, "dict")
+            return ("new", f"{getattr(e, 'lineno', 0)}:{getattr(e, 'col_offset', 0)}", "dict")
         return ("dict",) + tuple((self.term(k, st, log, nid) if k is not None else ("star",), self.term(v, st, log, nid)) for k, v in zip(e.keys, e.values))
 
     def t_Starred(self, e, st, log, nid):
@@ -419,7 +443,7 @@ class Evaluator:
         left = self.term(e.left, st, log, nid)
         for op, c in zip(e.ops, e.comparators):
             r = self.term(c, st, log, nid)
-            parts.append(("cmp", _CMP.get(type(op), type(op).__name__), left, r))
+            parts.append(cmp_term(_CMP.get(type(op), type(op).__name__), left, r))
             left = r
         return parts[0] if len(parts) == 1 else ("and",) + tuple(parts)
 
@@ -505,8 +529,7 @@ class Evaluator:
         if attr == "get" and recv is not None and recv[0] == "dict" and 1 <= len(args) <= 2 and not kwargs:
             return ("dictget", recv, args[0], args[1] if len(args) == 2 else NONE)
         if callee in ("set", "list", "dict") and not args and not kwargs and log:
-            st.nfresh += 1
-            return ("new", st.nfresh, callee)
+            return ("new", f"{getattr(e, 'lineno', 0)}:{getattr(e, 'col_offset', 0)}", callee)
         if self.is_pure(callee, attr):
             res: Term = ("pcall", callee if callee is not None else (("meth", recv, attr) if attr else recv), args, tuple(sorted(kwargs.items())))
         else:
